@@ -379,7 +379,12 @@ impl ResidencyPage {
             }
             let mut arr = [0u8; RESIDENCY_ENTRY_SIZE];
             arr.copy_from_slice(&data[offset..offset + RESIDENCY_ENTRY_SIZE]);
-            entries.push(ResidencyEntry::from_bytes(&arr));
+            // The guard is the hash of the bytes as they are in the file: an
+            // entry whose key, span or type no longer match it is damaged and
+            // is left out (it must not make another key resident)
+            if hash_flags == ResidencyEntry::compute_hash_guard(&arr) {
+                entries.push(ResidencyEntry::from_bytes(&arr));
+            }
             offset += RESIDENCY_ENTRY_SIZE;
         }
 
